@@ -595,6 +595,7 @@ def rule_cancel_refcount(ctx):
         eff = _state_effect(next(iter(o))) if len(o) == 1 else None
         conds = cb.conditions(r)
         mcs = [mask_cmp(c) for c in conds]
+        mcs = [m for m in mcs if m is None or m[1] == ("arg", 2)]
         not_polling = _bit_implied(mcs, C["POLLING"], 0)
         polling = _bit_implied(mcs, C["POLLING"], 1)
         rex = [c.data[1] for c in conds if c.kind == "call" and c.data[0] == TASK + "util::runnable_exists"]
@@ -684,7 +685,12 @@ def rule_state_updates(ctx):
                     for c in cb.conditions(r):
                         mc = mask_cmp(c)
                         if mc:
-                            conds.append((mc[0], mc[2], mc[3]))
+                            # the tested word must be the closure's own argument (the value the RMW is about to replace), not a
+                            # state captured earlier: a stale test makes the transition ignore a concurrent change
+                            if mc[1] == ("arg", 2):
+                                conds.append((mc[0], mc[2], mc[3]))
+                            else:
+                                conds.append(("stale-operand", mc[2], mc[3]))
                         elif c.kind == "call":
                             conds.append(("call", c.data[0], c.data[1]))
                     got.setdefault(owner, set()).add((rv.get("variant"), eff, tuple(sorted(conds, key=str))))
